@@ -1049,7 +1049,7 @@ fn main() {
     let wall_cap = std::env::var("VERIF_WALL_CAP_S")
         .ok()
         .and_then(|v| v.parse::<f64>().ok())
-        .unwrap_or(ctx.pick(40.0, 1500.0));
+        .unwrap_or(ctx.pick(35.0, 1500.0));
     let capped = AtomicBool::new(false);
     let skipped = AtomicU64::new(0);
     let start = Instant::now();
@@ -1088,6 +1088,8 @@ fn main() {
     }
     let prep_commands = stats.commands.load(Ordering::Relaxed);
 
+    // the wall-clock budget of the search starts when the roots are prepared
+    let start = Instant::now();
     let step = |h: &[Act]| -> Option<bfs::StepResult<Act>> {
         if h.is_empty() {
             return Some(bfs::StepResult { key: "root".into(), actions: (0..phases.len()).map(Act::Init).collect() });
